@@ -296,8 +296,9 @@ fn limits(d: &mut Draw, quick: bool) -> Shape {
     // configured limits at or below the defaults (a user who raises them asks for the depth)
     let size_limit = *d.pick(&[1048576usize, 16, 256, 4096]);
     let array_limit = *d.pick(&[128usize, 4, 16]);
-    // iteration counts near a large limit are slow: the quick tier stays at 4096
-    let sl = if quick { size_limit.min(4096) } else { size_limit };
+    // iteration counts near a large limit are slow (a 4096-iteration statement loop costs
+    // 15 CPU-s over the three pipelines): the quick tier stays at 1024
+    let sl = if quick { size_limit.min(1024) } else { size_limit };
     let n = limit_near(d, sl);
     let a = limit_near(d, array_limit);
     // two-dimensional: a 256 x 256 array takes the post-pass-2 checks minutes (slow, not a crash)
